@@ -7,6 +7,7 @@ EXTENDS Bufs
 CONSTANTS NB, MaxSteps, Paths
 VARIABLES st, steps, trail     \* trail: ghost, the commands so far (not in the VIEW)
 
+W0 == [k |-> "w", path |-> "", whole |-> TRUE, beg |-> 0, end |-> 0, force |-> TRUE, fault |-> ""]
 Cmds(s) ==
     LET n == Len(Cur(s).lb.lines) IN
     {[k |-> "e", path |-> p, force |-> f] : p \in Paths \cup {""}, f \in BOOLEAN} \cup
@@ -15,9 +16,10 @@ Cmds(s) ==
     {[k |-> "w", path |-> "", whole |-> FALSE, beg |-> 0, end |-> 1, force |-> FALSE, fault |-> ""] : x \in {y \in {1} : n >= 2}} \cup
     {[k |-> q, force |-> f, fault |-> ""] : q \in {"q", "wq", "x", "xa"}, f \in BOOLEAN} \cup
     {[k |-> "b", how |-> h, n |-> 2, force |-> FALSE] : h \in {"next", "prev", "alias", "del"}} \cup
-    {[k |-> "a", n |-> 1], [k |-> "d"], [k |-> "u"], [k |-> "redo"]} \cup
+    {[k |-> "a", n |-> 2], [k |-> "d"], [k |-> "u"], [k |-> "redo"], [k |-> "top"]} \cup
     {[k |-> "se", opt |-> o, val |-> v] : o \in {"aw", "wa"}, v \in BOOLEAN} \cup
-    {[k |-> "touch", path |-> p] : p \in Paths}
+    {[k |-> "touch", path |-> p] : p \in Paths} \cup
+    {[k |-> "line", cs |-> cs] : cs \in {<<[k |-> "top"], [k |-> "d"], W0, [k |-> "d"]>>, <<[k |-> "d"], W0, [k |-> "u"]>>, <<W0, [k |-> "d"]>>}}
 
 Init == st = NewState(Paths, NB) /\ steps = 0 /\ trail = <<>>
 Next == /\ ~st.quit /\ steps < MaxSteps
@@ -28,7 +30,7 @@ View == <<st, steps>>
 
 Inv == DirtySound(st) /\ NoLoss(st) /\ TableOK(st)
 (* switching commands leave every buffer alone; a failed or refused command changes no text *)
-ActionProps == [][ /\ (st'.ret # 0 /\ ~st'.quit) => \A i \in 1..Len(st.tab) : \E j \in 1..Len(st'.tab) :
+ActionProps == [][ /\ (st'.ret # 0 /\ ~st'.quit /\ trail'[Len(trail')].k # "line") => \A i \in 1..Len(st.tab) : \E j \in 1..Len(st'.tab) :
                                                   st'.tab[j].id = st.tab[i].id /\ st'.tab[j].lb.lines = st.tab[i].lb.lines
                  ]_<<st, steps, trail>>
 =============================================================================
